@@ -75,6 +75,8 @@ def make_task(kind, direction, seed, log=None):
     calls = _CALLS
     if kind == "cont3":       # asymmetric bounds, one zero bound on each side
         vs = [ContinuousMultiVariable(name="x", lower_bounds=[0, 0, -5], upper_bounds=[10, 3, 0])]
+    elif kind == "cont3b":    # same dimension, much wider bounds (reuse of an instance on another task)
+        vs = [ContinuousMultiVariable(name="x", lower_bounds=[-400, -100, -900], upper_bounds=[100, 700, 50])]
     elif kind == "cont1":
         vs = [ContinuousVariable(name="x", lower_bound=-2.5, upper_bound=7.0)]
     elif kind == "contbig":
@@ -94,7 +96,7 @@ def make_task(kind, direction, seed, log=None):
         raise ValueError(kind)
     kw = dict(variables=vs, minmax=direction, seed=seed, data={"kind": kind, "log": log})
     if kind == "multiobj":
-        kw["objective_weights"] = [0.3, 0.7]
+        kw["objective_weights"] = [0.3, 0.9]       # deliberately not normalised
     t = _T(**kw)
     return t, calls
 
@@ -105,6 +107,8 @@ def _objective(kind, x):
         return [-v for v in y] if isinstance(y, list) else -y
     if kind in ("cont3",):
         return (x[0] - 2.0) ** 2 + (x[1] - 1.0) ** 2 + (x[2] + 1.5) ** 2 + 0.25
+    if kind == "cont3b":
+        return abs(x[0] + 7.0) + abs(x[1] - 30.0) + abs(x[2] + 3.0) + 40.0
     if kind == "cont1":
         return (x[0] - 1.0) ** 2 - 3.0          # negative costs occur
     if kind == "contbig":
@@ -211,8 +215,34 @@ def run_case(case):
     Population.__init__ = rec_init
     np.random.seed(12345 + case["seed"])       # pre-perturb the global stream: a seeded run must not depend on it
     t0 = time.time()
+    import contextlib, io
+    sink = io.StringIO()
+    if case.get("scenario") == "rejected":
+        # an invalid call (objective / weight count mismatch) must be rejected and must leave configuration and task alone
+        task.objective_weights = [0.2, 0.3, 0.5] if case["kind"] == "multiobj" else [1.0, 2.0]
+        task_before = task.model_dump()
+        try:
+            with contextlib.redirect_stdout(sink):
+                K(cfg).optimize(task)
+            M["C06"] = "objective / weight count mismatch was not rejected"
+        except ValueError:
+            pass
+        except Exception as ex:
+            M["C06"] = f"objective / weight count mismatch raised {type(ex).__name__}, not ValueError"
+        finally:
+            Population.__init__ = orig_init
+        if cfg.model_dump() != cfg_before:
+            M["C09"] = f"configuration changed by a rejected optimize(): {cfg_before.get('population_size')} -> {cfg.population_size}"
+        elif task.model_dump() != task_before:
+            M["C09"] = "task changed by a rejected optimize()"
+        try:
+            os.unlink(logf.name)
+        except OSError:
+            pass
+        return rec
     try:
-        opt = K(cfg)
+      with contextlib.redirect_stdout(sink):
+        opt = K(cfg, debug=True) if case.get("debug") else K(cfg)
         kwargs = {}
         if case.get("mode"):
             kwargs = dict(mode=case["mode"], workers=case.get("workers", 2))
@@ -322,8 +352,8 @@ def run_pair(case):
     K = getattr(pv, case["opt"])
     C = getattr(pv, case["cfg_name"])
 
-    def fresh(direction=None, neg=False):
-        t, _ = make_task(case["kind"], direction or case["direction"], case["seed"])
+    def fresh(direction=None, neg=False, kind=None, seed=None):
+        t, _ = make_task(kind or case["kind"], direction or case["direction"], case["seed"] if seed is None else seed)
         if neg:
             t.data["kind"] = "neg:" + t.data["kind"]
         return t
@@ -345,6 +375,57 @@ def run_pair(case):
             if second.model_dump() != ref.model_dump():
                 rec["monitors"]["C08"] = (f"second optimize() on a used instance differs from a fresh instance "
                                           f"({len(second.rates)} vs {len(ref.rates)} cycles)")
+        elif sc == "reuse2":
+            # an instance used on another task of the same dimension (different bounds, other objective) before
+            o = K(C(**case["cfg_kw"]))
+            o.optimize(fresh(kind="cont3b"))
+            second = o.optimize(fresh())
+            ref = K(C(**case["cfg_kw"])).optimize(fresh())
+            if second.model_dump() != ref.model_dump():
+                rec["monitors"]["C08"] = "optimize() on an instance used before on another task differs from a fresh instance"
+        elif sc == "repro0":
+            np.random.seed(1)
+            a = K(C(**case["cfg_kw"])).optimize(fresh(seed=0))
+            np.random.seed(2)
+            np.random.random(11)
+            b = K(C(**case["cfg_kw"])).optimize(fresh(seed=0))
+            if a.model_dump() != b.model_dump():
+                rec["monitors"]["C07"] = "two serial runs with seed 0 differ"
+        elif sc == "setcfg2":
+            # HyperTuner-style reuse: configure, run, re-configure with other values, run: equals a fresh optimizer
+            kw1 = dict(case["cfg_kw"])
+            kw2 = dict(case["cfg_kw"])
+            kw2["population_size"] = int(kw1["population_size"] * 2)
+            for k_, v_ in case.get("alt", {}).items():
+                kw2[k_] = v_
+            try:
+                C(**kw2)
+            except Exception:
+                rec["skip"] = "second configuration rejected"
+                return rec
+            o = K()
+            o.set_config_parameters(dict(kw1))
+            o.optimize(fresh())
+            o.set_config_parameters(dict(kw2))
+            a = o.optimize(fresh())
+            b = K(C(**kw2)).optimize(fresh())
+            if o.configuration.model_dump() != C(**kw2).model_dump():
+                rec["monitors"]["C18"] = "set_config_parameters(d2) != Config(**d2)"
+            elif a.model_dump() != b.model_dump():
+                sa, sb = [len(g.agents) for g in a.evolution][:4], [len(g.agents) for g in b.evolution][:4]
+                rec["monitors"]["C18"] = f"run after a second set_config_parameters differs from a fresh optimizer (sizes {sa} vs {sb})"
+                if sa != sb:
+                    rec["monitors"]["C10"] = f"generation sizes {sa} after re-configuration, expected {sb}"
+        elif sc == "duality_reuse":
+            o = K(C(**case["cfg_kw"]))
+            a = o.optimize(fresh("max"))
+            b = o.optimize(fresh("min", neg=True))
+            same = len(a.evolution) == len(b.evolution) and all(
+                [x.position for x in ga.agents] == [y.position for y in gb.agents] and
+                all(x.cost == -y.cost for x, y in zip(ga.agents, gb.agents))
+                for ga, gb in zip(a.evolution, b.evolution))
+            if not same:
+                rec["monitors"]["C12"] = "max f then min -f on the same instance: positions differ / costs are not exact negatives"
         elif sc == "setcfg":
             try:
                 o = K()
@@ -381,7 +462,7 @@ def run_pair(case):
 
 def _dispatch(case):
     try:
-        if case.get("scenario") in ("repro", "reuse", "setcfg", "duality"):
+        if case.get("scenario") in ("repro", "reuse", "setcfg", "duality", "reuse2", "repro0", "setcfg2", "duality_reuse"):
             return run_pair(case)
         return run_case(case)
     except Exception as ex:  # harness failure
@@ -390,7 +471,7 @@ def _dispatch(case):
 
 
 # ---- campaign ----------------------------------------------------------------------------------------------------------------------------------------------
-CONT = ["cont3", "cont1", "contbig", "multiobj"]
+CONT = ["cont3", "cont1", "contbig", "multiobj", "cont3b"]
 INTCODED = ["discrete", "binary", "mixed", "perm"]
 
 
@@ -404,7 +485,7 @@ def build_cases(tier, seed):
         base.pop("early_stopping", None)
         scales = [1.0] if tier == "quick" else [1.0, 1.5, 2.0, 3.0]
         cycles = [1, 3] if tier == "quick" else [1, 2, 5]
-        for kind in (CONT if tier == "quick" else CONT) + (["discrete", "perm"] if tier == "quick" else INTCODED):
+        for kind in ["cont3", "cont1", "contbig", "multiobj"] + (["discrete", "perm"] if tier == "quick" else INTCODED):
             for direction in ("min", "max"):
                 for mc in cycles:
                     for sc in scales:
@@ -424,10 +505,32 @@ def build_cases(tier, seed):
             cases.append(dict(opt=opt, cfg_name=cfg_name, cfg_kw=kw, kind="cont3", direction="min", seed=seeds[0], mode=mode,
                               workers=workers, scenario="single", scale=1.0))
         # relational scenarios
-        for scn in ("repro", "reuse", "setcfg", "duality"):
+        for scn in ("repro", "reuse", "setcfg", "duality", "reuse2", "repro0", "setcfg2", "duality_reuse"):
             kw = dict(base, max_cycles=3)
             cases.append(dict(opt=opt, cfg_name=cfg_name, cfg_kw=kw, kind="cont3", direction="min", seed=seeds[0], mode=None,
                               scenario=scn, scale=1.0))
+        # re-configuration that changes one algorithm parameter and keeps the population size
+        for pname, pval in sorted(base.items()):
+            if pname in ("population_size", "max_cycles", "fitness_error") or isinstance(pval, bool) or not isinstance(pval, int):
+                continue
+            for alt in (max(1, pval // 2), pval + 1):
+                if alt != pval:
+                    cases.append(dict(opt=opt, cfg_name=cfg_name, cfg_kw=dict(base, max_cycles=3), kind="cont3", direction="min",
+                                      seed=seeds[0], mode=None, scenario="setcfg2", scale=1.0, alt={pname: alt, "population_size": base["population_size"]}))
+        cases.append(dict(opt=opt, cfg_name=cfg_name, cfg_kw=dict(base, max_cycles=3), kind="perm", direction="min", seed=seeds[0],
+                          mode=None, scenario="repro", scale=1.0))
+        # population sizes above the documented scale, debug logging, rejected calls
+        if tier == "quick":
+            for sc_ in (1.5, 3.0):
+                kw = dict(base, max_cycles=3, population_size=int(base["population_size"] * sc_))
+                cases.append(dict(opt=opt, cfg_name=cfg_name, cfg_kw=kw, kind="cont3", direction="min", seed=seeds[0], mode=None,
+                                  scenario="single", scale=sc_))
+        for direction in ("min", "max"):
+            cases.append(dict(opt=opt, cfg_name=cfg_name, cfg_kw=dict(base, max_cycles=4), kind="cont3", direction=direction, seed=seeds[0],
+                              mode=None, scenario="single", scale=1.0, debug=True))
+        for kind in ("cont3", "multiobj"):
+            cases.append(dict(opt=opt, cfg_name=cfg_name, cfg_kw=dict(base, max_cycles=2), kind=kind, direction="min", seed=seeds[0],
+                              mode=None, scenario="rejected", scale=1.0))
     return cases
 
 
